@@ -31,6 +31,7 @@ class Spec:
         k = keys
         self.tempo_rows_reversed = variant.endswith("-rev")  # the source lists its later tempo point first
         self.header_tempo_overridden = variant.endswith("-hdr")  # O2Jam: the header tempo differs from a tempo event on measure 0
+        self.level = 1 if variant.endswith("-lvl") else 0  # O2Jam: the chart is the file's second difficulty; the first has other tempo changes
         variant = variant.split("-")[0]
         self.keys = k
         self.T0 = 0 if zero_start else ctx.real("T0")
@@ -54,6 +55,9 @@ class Spec:
             self.hits = [(0, F(0)), (k - 1, F(3)), (1 % k, F(14)), (0, F(18))]
             self.holds = []
             self.meter = [3, 4]
+        elif variant == "f":  # the highest lane carries only a long note
+            self.hits = [(0, F(0)), (1 % k, F(1)), (0, F(9))]
+            self.holds = [(k - 1, F(2), F(5))]
         else:  # "e": one object in every lane
             self.hits = [(c, F(c, 2)) for c in range(k)]
             self.holds = [(k - 1, F(9), F(11))]
@@ -166,7 +170,14 @@ def src_o2j(ctx, sp):
         pkgs.insert(0, (0, 1, [("bpm", sp.bpm(0)), None]))
     h["title"], h["artist"], h["creator"] = "Song", "art", "me"
     h["package_count"] = [len(pkgs), 0, 0]
-    data = ref_ojn.header(h) + b"".join(ref_ojn.package(*p) for p in pkgs)
+    decoy = []
+    if sp.level:
+        Ld = ctx.real("Ldecoy")
+        ctx.assume(Ld >= 1)
+        ctx.assume(Ld <= 60000)
+        decoy = [(0, 2, [c07.N("hit"), None]), (1, 1, [None, ("bpm", 60000 / Ld)]), (3, 3, [c07.N("hit")])]
+        h["package_count"] = [len(decoy), len(pkgs), 0]
+    data = ref_ojn.header(h) + b"".join(ref_ojn.package(*p) for p in decoy + pkgs)
     if hook.installed():
         c07._install_unpack()
     try:
@@ -252,7 +263,9 @@ def tgt_bms(ctx, sp, out, shift):
             fil[-1] = (p, v)
         else:
             fil.append((p, v))
-    ctx.check("target.tempo.same-timeline-to-3-decimals", same_steps(ctx, fil, [(sp.tb[i], sp.bpm(i)) for i in range(2)], F(5001, 10**7)), note="%r" % [p for p, _v in fil])
+    # (three printed decimals; an O2Jam source stores its tempos as float32, which the concrete runs really round)
+    tol = F(5001, 10**7) + ((sp.bpm(0) + sp.bpm(1)) * F(1, 2**23) if getattr(sp, "src", "") == "o2j" else 0)
+    ctx.check("target.tempo.same-timeline-to-3-decimals", same_steps(ctx, fil, [(sp.tb[i], sp.bpm(i)) for i in range(2)], tol), note="%r" % [p for p, _v in fil])
     ctx.check("target.title", d["header"].get(b"TITLE") == b"Song", note="%r" % d["header"].get(b"TITLE"))
 
 
@@ -263,13 +276,14 @@ def ob_pipeline(src, tgt, keys, variant, ctx):
     import reamber.algorithms.convert as CV
 
     sp = Spec(ctx, keys, variant, zero_start=src in ("bms", "o2j"))
+    sp.src = src
     a = SRC[src](ctx, sp)
     cv = getattr(CV, CONV[(src, tgt)])
     shift = 1 if CONV[(src, tgt)] == "O2JToBMS" else 0
     out = cv.convert(a)
     if isinstance(out, list):
         ctx.check("converted.one-per-chart", len(out) == (len(a.maps) if hasattr(a, "maps") else 1), note="%d" % len(out))
-        out = out[0]
+        out = out[sp.level]
     TGT[tgt](ctx, sp, out, shift)
 
 
@@ -303,12 +317,16 @@ def obligations(tier, seed):
                     obs.append(_ob(src, tgt, keys, "e"))
     for tgt in ("osu", "qua", "sm", "bms"):
         obs.append(_ob("o2j", tgt, 7, "a-hdr"))
+        obs.append(_ob("o2j", tgt, 7, "b-lvl"))
     # sources that list their later tempo point first
     for src, tgt in PAIRS:
         if src in ("osu", "qua", "sm") and (not quick or tgt in ("bms", "sm") or (src, tgt) == ("sm", "osu")):
             obs.append(_ob(src, tgt, 4, "a-rev"))
             if not quick:
                 obs.append(_ob(src, tgt, 7, "b-rev"))
+    for src, tgt in PAIRS:
+        if src != "o2j" and (not quick or src == "bms" or tgt == "osu"):
+            obs.append(_ob(src, tgt, 4 if "qua" in (src, tgt) else 6, "f"))
     # an osu source whose first timing point has 3 beats per measure (formats without measure lengths must not inherit it)
     for tgt in ("sm", "qua"):
         for keys in ((4,) if quick else (4, 7)):
